@@ -162,6 +162,8 @@ def run(case: dict, ctx) -> dict:
             table_gap=rng.choice([0, 0, 1, 7]), extra_entries=rng.choice([0, 0, 1, 5]),
             orig_size=rng.choice([None, None, bs * rng.randrange(1, 3 * n + 2), SECTOR * rng.randrange(1, 100)]),
             table_place=rng.choice(["front", "front", "behind", "middle"]), stale_copy=rng.random() < 0.2,
+            # blocks stored beyond 1 TiB of file: the table's 32-bit sector numbers use their top bit
+            far_sector=rng.choice([0, 0, 0, 0x7FFFFF00, 0x80000000, 0xC0000001]) if bs >= 4096 else 0,
         )
         units = [bs]
     model = Model(meta["size"], [layer])
